@@ -6,6 +6,9 @@ every index, the connection Laplacian is Hermitian and reduces to the scalar one
 constants `**4` / `*2/pi` read from the source work for every order on faces with one feature edge).
 Checked on every run only (oracle on the real code + exact residual in the model): that spsolve / inverse power
 iteration return the harmonic extension, numbering independence, the geometric closure of fans (Gauss-Bonnet side).
+Round 4: method bodies translated imperatively (vlib/gen/c18stranslate.py -> Generated/C18Src.lean), bridges + theorems on the
+generated definitions in Props/C18Source.lean (harmonic extension GIVEN an exact linear solve, renumbering), 4*chi over the reals
+in Props/C18Real.lean, SOURCE_MAP below.
 """
 import cmath, math, os
 from fractions import Fraction
@@ -15,10 +18,11 @@ from ..gen import c18gen as GG
 from ..gen import c18translate as TR
 from ..gen import c18vtranslate as TRV
 from ..gen import c18htranslate as TRH
+from ..gen import c18stranslate as TRS
 
 PID = "C18"
 TITLE = "Surface frame fields are unit, border-aligned and topologically consistent"
-LEAN_MODULES = ["Mouette.Props.C18"]
+LEAN_MODULES = ["Mouette.Props.C18", "Mouette.Props.C18Source", "Mouette.Props.C18Real"]
 REQUIRED_THEOREMS = [
     "normalize_unit", "normalize_all_unit", "constrained_untouched", "constrained_survive_normalize",
     "index_sum_telescopes", "matching_quantised", "matching_minimal", "index_quantised", "fan_theta_telescopes",
@@ -42,6 +46,18 @@ REQUIRED_THEOREMS = [
     "flag_attributes_independent_of_history", "flag_twice_eq_once", "stale_flag_survives_without_clear",
     "fixed_flags_independent_of_history", "stale_fixed_flag_survives_without_clear",
     "bridge_face_candidates", "bridge_attach_weight", "attach_weight_positive", "alpha_positive",
+    # round 4: method bodies translated imperatively (Generated/C18Src.lean), bridges and theorems on the generated definitions
+    "bridge_normalize", "bridge_normalize_all", "bridge_run", "bridge_fresh", "bridge_initialize_faces", "bridge_initialize_vertices",
+    "bridge_init_variables_faces", "bridge_optimize_faces", "bridge_optimize_vertices", "bridge_partition_faces",
+    "source_check_init_passes", "source_check_init_raises_on_fresh", "source_run_idempotent",
+    "source_normalize_unit", "source_optimize_faces_unit", "source_optimize_vertices_unit",
+    "source_optimize_faces_constrained_untouched", "source_optimize_vertices_constrained_untouched",
+    "source_optimize_faces_harmonic_extension", "source_optimize_vertices_harmonic_extension",
+    "harmonic_equation_renumbers", "renumbering_commutes_partial",
+    "bridge_flag_faces_edge_rot", "bridge_flag_faces_singuls", "source_flag_faces_independent_of_history",
+    "source_flag_faces_rotation_quantised", "source_flag_faces_index_is_scaled_holonomy", "source_flag_faces_index_multiple_of_quantum",
+    # round 4, over the reals: index total = 4 chi from C07's Gauss-Bonnet + telescoping with the polarity read from the source
+    "contribR_sum", "holonomy_total", "index_total_four_chi", "index_total_four_chi_closed",
 ]
 TRUSTED = [
     "Lean 4.33.0 kernel; axioms ⊆ {propext, Classical.choice, Quot.sound}",
@@ -62,6 +78,9 @@ TRUSTED = [
     "scipy.sparse.linalg.spsolve / factorized / eigsh and the inverse power iteration are NOT modelled (T7): their output is an "
     "input of the model, which computes the exact residual of the linear system; convergence is checked numerically per run",
     "floating point (T6): sqrt / atan2 / phase / cos / sin are evaluated by the implementation and the harness only",
+    "translator vlib/gen/c18stranslate.py (round 4: method BODIES read statement by statement -> Generated/C18Src.lean: base.normalize / run / "
+    "_check_init, faces2d initialize / _initialize_variables / optimize / flag_singularities, vertex2d initialize / optimize); the numeric "
+    "primitives abs / spsolve / factorized / inverse_power_method are parameters (FFS.Num) whose contracts are hypotheses of the theorems",
 ]
 ASSUMPTIONS = [
     "history clauses (round 3): a second run() / flag_singularities() on the same object, a field computed on a mesh that already carried "
@@ -78,6 +97,97 @@ RULE = ("triangulated oriented manifold surfaces from 14 families (height-field 
         "(run() twice + flag twice; initialize() then the callable; two fields of different order / element / features one after the other on "
         "ONE mesh (systematically: features on then off and off then on across a sharp crease, order 4 then 6, both elements, optionally re-using the first field's detector or passing two explicit detectors); another complete field on ANOTHER mesh between construction and run of the field under test (state shared between instances); an explicitly passed equivalent FeatureEdgeDetector) and representation "
         "families (integer-coordinate grids handed in as int64 arrays, Vec of python ints, int lists, float32 arrays), n_smooth in {0,1,3,10}.")
+
+
+# ------------------------------------------------------------------------------------------------
+# which function of the anchor files is tied to the Lean side how (goes into the evidence through core._source_map)
+#   translated  = a definition of lean/Mouette/Generated/C18*.lean is produced from the BODY of that function on every run and a
+#                 bridge theorem of Props/C18.lean / Props/C18Source.lean uses it ("imperative": the whole body, statement by statement;
+#                 "fragments": expressions / constants / guards of the body)
+#   modelled    = hand-written Lean model, tied by the correspondence run only
+#   oracle-only = no Lean counterpart; exercised / read by the oracle and the harness
+# ------------------------------------------------------------------------------------------------
+_FF = "mouette/processing/framefield/"
+SOURCE_MAP = {
+    # ---- base.py
+    _FF + "base.py::FrameField.__init__": "translated: fragments (initial flags -> C18S.fresh; bridge_fresh)",
+    _FF + "base.py::FrameField.element": "out-of-scope: read-only accessor of the element kind",
+    _FF + "base.py::FrameField._check_init": "translated: imperative (C18S.checkInitRaises; source_check_init_passes)",
+    _FF + "base.py::FrameField.__getitem__": "oracle-only",
+    _FF + "base.py::FrameField.initialize": "out-of-scope: abstract method",
+    _FF + "base.py::FrameField.optimize": "out-of-scope: abstract method",
+    _FF + "base.py::FrameField.run": "translated: imperative (C18S.run; bridge_run)",
+    _FF + "base.py::FrameField.normalize": "translated: imperative (C18S.normalize; bridge_normalize, bridge_normalize_all)",
+    _FF + "base.py::FrameField.export_as_mesh": "out-of-scope: abstract method",
+    _FF + "base.py::FrameField.flag_singularities": "out-of-scope: abstract method",
+    # ---- faces2d.py
+    _FF + "faces2d.py::_BaseFrameField2DFaces.__init__": "oracle-only",
+    _FF + "faces2d.py::_BaseFrameField2DFaces._initialize_attributes": "oracle-only",
+    _FF + "faces2d.py::_BaseFrameField2DFaces._initialize_variables": "translated: imperative (C18S.initVariablesFaces; bridge_init_variables_faces)",
+    _FF + "faces2d.py::_BaseFrameField2DFaces._compute_attach_weight": "translated: fragments (filter threshold, fail value, abs(min); bridge_attach_weight)",
+    _FF + "faces2d.py::_BaseFrameField2DFaces.flag_singularities": "translated: imperative (C18S.flagEdgeRotFaces / flagSingulsFaces; bridge_flag_faces_edge_rot, bridge_flag_faces_singuls)",
+    _FF + "faces2d.py::_BaseFrameField2DFaces.export_as_mesh": "out-of-scope: visualisation export, not an observable of the property",
+    _FF + "faces2d.py::FrameField2DFaces.__init__": "oracle-only",
+    _FF + "faces2d.py::FrameField2DFaces.initialize": "translated: imperative (C18S.initializeFaces; bridge_initialize_faces)",
+    _FF + "faces2d.py::FrameField2DFaces.optimize": "translated: imperative (C18S.optimizeFaces; bridge_optimize_faces)",
+    _FF + "faces2d.py::TrivialConnectionFaces.__init__": "out-of-scope: trivial connections are outside the quantifier of C18",
+    _FF + "faces2d.py::TrivialConnectionFaces.initialize": "out-of-scope: trivial connections are outside the quantifier of C18",
+    _FF + "faces2d.py::TrivialConnectionFaces.optimize": "out-of-scope: trivial connections are outside the quantifier of C18",
+    # ---- vertex2d.py
+    _FF + "vertex2d.py::_BaseFrameField2DVertices.__init__": "oracle-only",
+    _FF + "vertex2d.py::_BaseFrameField2DVertices._initialize_attributes": "oracle-only",
+    _FF + "vertex2d.py::_BaseFrameField2DVertices._initialize_variables": "translated: fragments (branch condition, exponent, cancellation guard, feature threshold; bridge_vertex_init); loop structure modelled (FFV.initVertsFull)",
+    _FF + "vertex2d.py::_BaseFrameField2DVertices._compute_attach_weight": "translated: fragments (same constants as the face-based one; bridge_attach_weight)",
+    _FF + "vertex2d.py::_BaseFrameField2DVertices.flag_singularities": "translated: fragments (matching arguments, store signs, half-edge list, curvature sign, threshold, clear; bridge_vertex_candidates, bridge_vertex_flag_structure); loops modelled (FFV)",
+    _FF + "vertex2d.py::_BaseFrameField2DVertices.export_as_mesh": "out-of-scope: visualisation export, not an observable of the property",
+    _FF + "vertex2d.py::FrameField2DVertices.__init__": "oracle-only",
+    _FF + "vertex2d.py::FrameField2DVertices.initialize": "translated: imperative (C18S.initializeVerts; bridge_initialize_vertices)",
+    _FF + "vertex2d.py::FrameField2DVertices._modify_parallel_transport": "out-of-scope: cad_correction (OSQP-modified transport) is outside the quantifier",
+    _FF + "vertex2d.py::FrameField2DVertices.optimize": "translated: imperative (C18S.optimizeVerts; bridge_optimize_vertices)",
+    _FF + "vertex2d.py::TrivialConnectionVertices.__init__": "out-of-scope: trivial connections are outside the quantifier of C18",
+    _FF + "vertex2d.py::TrivialConnectionVertices.initialize": "out-of-scope: trivial connections are outside the quantifier of C18",
+    _FF + "vertex2d.py::TrivialConnectionVertices.optimize": "out-of-scope: trivial connections are outside the quantifier of C18",
+    # ---- connection.py
+    "mouette/processing/connection.py::SurfaceConnection.__init__": "oracle-only",
+    "mouette/processing/connection.py::SurfaceConnection._initialize": "out-of-scope: abstract method",
+    "mouette/processing/connection.py::SurfaceConnection.transport": "oracle-only",
+    "mouette/processing/connection.py::SurfaceConnection.base": "oracle-only",
+    "mouette/processing/connection.py::SurfaceConnection.bX": "oracle-only",
+    "mouette/processing/connection.py::SurfaceConnection.bY": "oracle-only",
+    "mouette/processing/connection.py::SurfaceConnection.project": "oracle-only",
+    "mouette/processing/connection.py::SurfaceConnectionVertices.__init__": "oracle-only",
+    "mouette/processing/connection.py::SurfaceConnectionVertices._initialize": "translated: fragments (dfct, feature / interior rescaling; bridge_connection_formulas); ring traversal oracle-only",
+    "mouette/processing/connection.py::FlatConnectionVertices.__init__": "oracle-only",
+    "mouette/processing/connection.py::FlatConnectionVertices._initialize": "oracle-only",
+    "mouette/processing/connection.py::FlatConnectionVertices.transport": "oracle-only",
+    "mouette/processing/connection.py::FlatConnectionVertices.base": "oracle-only",
+    "mouette/processing/connection.py::FlatConnectionVertices.project": "oracle-only",
+    "mouette/processing/connection.py::SurfaceConnectionFaces.__init__": "oracle-only",
+    "mouette/processing/connection.py::SurfaceConnectionFaces._initialize": "translated: fragments (the two face transports; bridge_connection_formulas); basis construction oracle-only",
+    "mouette/processing/connection.py::FlatConnectionFaces.__init__": "oracle-only",
+    "mouette/processing/connection.py::FlatConnectionFaces._initialize": "oracle-only",
+    "mouette/processing/connection.py::FlatConnectionFaces.transport": "oracle-only",
+    "mouette/processing/connection.py::FlatConnectionFaces.base": "oracle-only",
+    "mouette/processing/connection.py::FlatConnectionFaces.project": "oracle-only",
+    "mouette/processing/connection.py::SurfaceConnectionEdges.__init__": "out-of-scope: edge-based connection, not used by the surface frame fields",
+    "mouette/processing/connection.py::SurfaceConnectionEdges._initialize": "out-of-scope: edge-based connection, not used by the surface frame fields",
+    # ---- laplacian_op.py
+    "mouette/operators/laplacian_op.py::graph_laplacian": "out-of-scope: not used by the surface frame fields",
+    "mouette/operators/laplacian_op.py::graph_laplacian.add": "out-of-scope: not used by the surface frame fields",
+    "mouette/operators/laplacian_op.py::laplacian": "modelled: assembly (FF.entryVert / coeff) by hand, compared coefficient by coefficient; the two phases are translated fragments (laplacian_vertex_phases_sum)",
+    "mouette/operators/laplacian_op.py::cotan_edge_diagonal": "oracle-only",
+    "mouette/operators/laplacian_op.py::laplacian_triangles": "modelled: assembly (FF.entryFace / coeff) by hand, compared coefficient by coefficient; the phase is a translated fragment (laplacian_faces_phase)",
+    "mouette/operators/laplacian_op.py::laplacian_edges": "out-of-scope: not used by the surface frame fields",
+    "mouette/operators/laplacian_op.py::volume_laplacian": "out-of-scope: volumes",
+    "mouette/operators/laplacian_op.py::laplacian_tetrahedra": "out-of-scope: volumes",
+    # ---- eigensolve.py, maths.py
+    "mouette/optimize/eigensolve.py::inverse_power_method": "oracle-only",
+    "mouette/optimize/eigensolve.py::rayleigh_quotient_iteration": "out-of-scope: not used by the surface frame fields",
+    "mouette/utils/maths.py::roots": "translated: fragments (C18V.rootPhase; bridge_roots)",
+    "mouette/utils/maths.py::angle_diff": "translated: fragments (C18V.angleDiff; bridge_angle_diff)",
+    "mouette/utils/maths.py::principal_angle": "out-of-scope: only used by the trivial connections",
+    "mouette/utils/maths.py::solve_quadratic": "out-of-scope: not used by the surface frame fields",
+}
 
 TWO_PI = 2 * math.pi
 _CACHE = {}
@@ -656,6 +766,8 @@ def compare(case, model, impl):
         return "part: model fixed/free partition differs from the constrained set of the implementation"
     if faces and r.m.faces.has_attribute("fixed"):
         fa = r.m.faces.get_attribute("fixed")
+        if any(i is None or isinstance(i, (tuple, str)) for i in fa):
+            return "part: the optimiser's `fixed` face attribute has a key that is not a face index"
         if sorted(int(i) for i in fa if fa[i]) != mfixed:
             return "part: model fixedInds differ from the optimiser's `fixed` face attribute"
     # ---- init
@@ -1300,7 +1412,7 @@ def shrink(case, still):
 
 
 def translate():
-    return TR.run() + TRV.run() + TRH.run()
+    return TR.run() + TRV.run() + TRH.run() + TRS.run()
 
 
 MANIFEST = {
@@ -1321,7 +1433,14 @@ MANIFEST = {
                    "every mesh (no geometric hypothesis), the face angles telescope to the total curvature (+ border term) by induction over the "
                    "edge and face lists; and bridge theorems from the source-shaped fragments of vertex2d.py / connection.py / laplacian_op.py / "
                    "attr_faces.py / maths.py (rescaling 2*pi/sum-of-angles maps the ring to one turn, feature rings close on corners/order, the two "
-                   "Laplacian phases sum to -order turns, i.e. the transports are inverse unit numbers) to the models."),
+                   "Laplacian phases sum to -order turns, i.e. the transports are inverse unit numbers) to the models. "
+                   "Round 4: the BODIES of base.normalize / run / _check_init, faces2d initialize / _initialize_variables / optimize / flag_singularities and "
+                   "vertex2d initialize / optimize are translated statement by statement on every run (Generated/C18Src.lean) and proved equal to the models "
+                   "(bridge_* in Props/C18Source.lean); on the translated optimize: constrained unit entries survive the first solve, every smoothing pass and the "
+                   "final normalisation; the result is normalize(y) (unit wherever |y_i| > 1e-10); with n_smooth = 0 and an EXACT linear solve (hypothesis "
+                   "SolvedExactly: A x = b for the system the code builds) y is the harmonic extension (L_II y_I = -L_IB y_B, row by row) of the constraints; the "
+                   "harmonic equation is covariant under renumbering and, given uniqueness, the renumbered solve returns the renumbered field; over the reals "
+                   "(Props/C18Real.lean) the scaled holonomy sums add up to 4*chi on every oriented triangulated manifold from C07's Gauss-Bonnet."),
     "level_note": ("Trusted: Lean kernel + propext/Classical.choice/Quot.sound; the ast translator for 4 constant sites; the hand-written "
                    "model, tied to the code by feeding it the implementation's own per-edge transports / weights / phases / solver output "
                    "and comparing assembled matrix, partition, constraints, normalised field, edge rotations and vertex sums at 1e-9; "
